@@ -199,11 +199,14 @@ def run(ctx):
             else:
                 open(os.path.join(repo, ".dockerignore"), "w").write(text)
             snap = corr.Snap(scratch, None, root=top)
-            sub = [e["path"] for e in ents if e["kind"] == "d" and "/" not in e["path"] and e["path"] != "build"]
+            # sub-directory roots, also inside an ignored directory (everything below is then ignored)
+            sub = [e["path"] for e in ents if e["kind"] == "d" and e["path"].count("/") <= 1]
             roots = [(".", repo, ""), (gen.quote_path(repo), top, ""), (gen.quote_path(repo_name), top, "")]
             if sub:
                 sd = r.choice(sub)
                 roots.append((".", os.path.join(repo, sd), sd))
+                if any(e["path"] == "build" for e in ents) and r.chance(1, 2):
+                    roots.append((r.choice([".", gen.quote_path(os.path.join(repo, "build"))]), os.path.join(repo, "build"), "build"))
             opt = {"git": ["gitignore", "git"], "hg": ["hgignore", "hg"], "docker": ["dockerignore", "dock"]}[tool]
             key = {"git": "gitignore", "hg": "hgignore", "docker": "dockerignore"}[tool]
             # reference verdict per entry (relative to the repository)
